@@ -69,9 +69,14 @@ void generate(sim::Rng &r, uint64_t seed, const std::string &tier, sim::Plan &p)
     if (r.chance(250)) { op.fseed = r.next() >> 2; op.fmask = sim::F_WAIT_EINTR; }
     p.ops.push_back(op);
   }
+  if (r.chance(150)) p.cfg["rearm"] = 1;      // drawn last: older seeds keep their plans
   sim::draw_sched(seed, p);
 }
 
+// cfg rearm: the callback of every one-shot event enables the event again (a one-shot that re-arms itself): it stays subscribed; the ops
+// that overlap deliveries with subscription changes (pair, rcb, flood, craise) are left out of such plans, a re-arming one-shot is
+// unsubscribed for a moment inside every delivery
+bool g_rearm = false;
 struct Ev { SignalEvent *ev = nullptr; int loop = 0; int mask = 0; bool oneshot = false, enabled = false, exists = false; };
 struct CbAct { bool armed = false; int e2 = -1; int signo2 = 0; };
 struct World {
@@ -145,6 +150,7 @@ void execute(const sim::Plan &plan) {
   sim::set_deadlock_handler([](const sim::DeadlockInfo &info) { sim::violation("C04/deadlock", info.summary); });
   sim::set_stepcap_handler([] { sim::violation("C04/livelock", "step cap reached"); });
   W = World();
+  g_rearm = plan.get("rearm") != 0;
   W.nl = (int)std::max(1L, std::min((long)MAXLOOP, plan.get("nloops", 1)));
   // baseline dispositions
   for (int s = 0; s < NSG; ++s) {
@@ -177,7 +183,11 @@ void execute(const sim::Plan &plan) {
     for (int s = 0; s < NSG; ++s) if (e.mask & (1 << s)) ss.insert(SIGS[s]);
     e.ev->initialize(ss, e.oneshot ? Event::Mode::kOneshot : Event::Mode::kPersist);
     int idx = W.nev;
-    e.ev->setCallback([idx](int signo) { sim::hist(H_CB, idx, signo); on_callback_action(idx); });
+    e.ev->setCallback([idx](int signo) {
+      sim::hist(H_CB, idx, signo);
+      on_callback_action(idx);
+      if (g_rearm && W.ev[idx].oneshot) { sim::probe("oneshot_rearmed_in_callback"); if (!W.ev[idx].ev->enable()) sim::violation("C04/enable-failed", "enable() of a one-shot signal event inside its own callback failed"); }
+    });
     e.exists = true;
     ++W.nev;
   }
@@ -190,6 +200,7 @@ void execute(const sim::Plan &plan) {
     if (sim::violation_count()) break;
     if (op.kind == "ev") continue;
     sim::fault_scope(op.fseed, op.fmask);
+    if (g_rearm && (op.kind == "pair" || op.kind == "rcb" || op.kind == "flood" || op.kind == "craise")) continue;
     if (op.kind == "en" || op.kind == "dis" || op.kind == "del") {
       if (W.nev == 0) continue;
       int e = (int)(((op.arg(0) % W.nev) + W.nev) % W.nev);
@@ -367,7 +378,10 @@ void execute(const sim::Plan &plan) {
       }
       if (W.base[s] <= 1 && sentinel != 1) sim::violation("C04/previous-handler-not-chained", sim::fmt("the handler installed before the first subscription was invoked %d times for one delivery", sentinel));
       if (W.base[s] >= 2 && sentinel != 0) sim::violation("C04/previous-handler-not-chained", "a sentinel ran although none was installed");
-      for (int e : expect) if (W.ev[e].oneshot) { W.ev[e].enabled = false; if (W.ev[e].ev->isEnabled()) sim::violation("C04/oneshot-still-enabled", "a one-shot signal event is still enabled after it fired"); }
+      for (int e : expect) if (W.ev[e].oneshot) {
+        if (g_rearm) { if (!W.ev[e].ev->isEnabled()) sim::violation("C04/rearmed-oneshot-not-enabled", "a one-shot signal event whose callback enabled it again is not enabled after the delivery"); continue; }
+        W.ev[e].enabled = false; if (W.ev[e].ev->isEnabled()) sim::violation("C04/oneshot-still-enabled", "a one-shot signal event is still enabled after it fired");
+      }
       check_dispositions("after a one-shot delivery");
     }
   }
